@@ -579,9 +579,9 @@ func c09Line(w *bufio.Writer, workers, count, nbytes, retry, retentionMs, dqmode
 }
 
 func genC09(w *bufio.Writer, rng *hx.Rng, tier string) {
-	nrand := 260
+	nrand := 600
 	if tier == "thorough" {
-		nrand = 4000
+		nrand = 9000
 	}
 	mkEvs := func(n int) []evSpec {
 		evs := make([]evSpec, n)
@@ -607,6 +607,23 @@ func genC09(w *bufio.Writer, rng *hx.Rng, tier string) {
 				c09Line(w, 1, 2, 0, retry, 1, dqmode, 1, 1, 1, rng.U64(), mkEvs(3), []int{fails})
 			}
 		}
+	}
+	// the real elasticsearch output (its RetriableBatcher wiring and onError callback) on one always-failing batch
+	nes := 24
+	if tier == "thorough" {
+		nes = 300
+	}
+	for i := 0; i < nes; i++ {
+		n := 1 + i%4
+		fmt.Fprintf(w, "c09.es %d %d %d", (i/4)%3, (i/12)%2, n)
+		for j := 0; j < n; j++ {
+			k := 0
+			if i >= 24 || i%5 == 4 {
+				k = rng.Intn(3)
+			}
+			fmt.Fprintf(w, " %d", k)
+		}
+		w.WriteByte('\n')
 	}
 	for i := 0; i < nrand; i++ {
 		workers := rng.Range(1, 3)
